@@ -21,7 +21,6 @@ package main
 // answer was obtained for) spans the refresh.
 
 import (
-	"context"
 	"fmt"
 	"math/rand/v2"
 	"net/netip"
@@ -225,12 +224,13 @@ func geoRefreshCampaign(r *hlib.Result, m *hlib.Model, rng *rand.Rand, nDB, nHis
 }
 
 func geoRefreshCase(r *hlib.Result, m *hlib.Model, rng *rand.Rand, dir string, db1, db2 *geoDB, subs1, subs2 []string, queries []gdbQuery) {
-	f, err := db1.open(dir)
+	rf, err := openRace(db1, dir)
 	if err != nil {
 		r.Violate("geoip-refresh-failed", fmt.Sprintf("geoip.File.Refresh: %v", err), gdbReplay{DB: db1, Observed: err.Error()})
 
 		return
 	}
+	f := rf.f
 	dbs := []*geoDB{db1, db2}
 	// One address per /24 resp. /56 block wherever either database has a
 	// network longer than that (known finding geoip-data-cache-coarser-than-database).
@@ -267,16 +267,66 @@ func geoRefreshCase(r *hlib.Result, m *hlib.Model, rng *rand.Rand, dir string, d
 	tabs := []*geoTab{g1, g2}
 	sc := &scenario{Geo: *g1, Geo2: g2}
 	var refreshErr error
-	sc.onRefresh = func() {
-		db2.files(dir)
-		refreshErr = f.Refresh(context.Background())
-	}
 	n := 4 + rng.IntN(8)
 	sc.RefreshAt = 1 + rng.IntN(n-1)
 	// Few clients, so that the same address is located before and after.
 	pool := make([]netip.Addr, 0, 4)
 	for len(pool) < 4 {
 		pool = append(pool, pick(rng, addrs))
+	}
+	// Wave h: in two cases of three the refresh does not have the File to
+	// itself.  At one to three of its schedule points (race.go) the clients of
+	// the pool are looked up, or send a request for a name of their own
+	// ("c.example.": its cache entries cannot meet those of the history), as
+	// ratelimitmw and ecscache would do for a query arriving at that moment.
+	during := map[string][]midAct{}
+	var midObs []midObserved
+	if rng.IntN(3) != 0 {
+		for i, k := 0, 1+rng.IntN(3); i < k; i++ {
+			pt := pick(rng, racePoints)
+			for j, l := 0, 1+rng.IntN(2); j < l; j++ {
+				act := midAct{Addr: pick(rng, pool)}
+				if rng.IntN(2) == 0 {
+					rd := reqDesc{Remote: act.Addr, Host: 2, QType: dns.TypeA, QClass: dns.ClassINET,
+						Up: upDesc{HasOPT: true, Opts: []optDesc{ecsOptOf(netip.MustParsePrefix("11.0.0.0/24"), true, 24)}}}
+					if rng.IntN(3) == 0 {
+						ea := pick(rng, pool)
+						epfx, _ := ea.Prefix(ea.BitLen())
+						rd.RRs = []optRR{{Opts: []optDesc{ecsOptOf(epfx, true, 0)}}}
+					}
+					act.Req = &rd
+				}
+				during[pt] = append(during[pt], act)
+			}
+		}
+		r.Count("georefresh.with_activity_during_refresh")
+	}
+	sc.onRefreshRn = func(rn *runner) {
+		db2.files(dir)
+		refreshErr = rf.refresh(func(pt string, lockFree bool) {
+			if !lockFree {
+				// The write lock is held: the query would wait for the end of
+				// the refresh, where the history goes on anyway.
+				return
+			}
+			for _, act := range during[pt] {
+				mo := midObserved{Point: pt, Act: act}
+				if act.Req != nil {
+					o := rn.serve(900+len(midObs), act.Req)
+					mo.obs = &o
+					if o.UpReq != nil {
+						mo.Upstream = canonRRs(optRRsOf(o.UpReq), true)
+					}
+				} else {
+					l, derr := f.Data("", act.Addr)
+					mo.Loc = raceLoc(l)
+					if derr != nil {
+						mo.Loc = "error: " + derr.Error()
+					}
+				}
+				midObs = append(midObs, mo)
+			}
+		})
 	}
 	for i := 0; i < n; i++ {
 		ep := 0
@@ -314,6 +364,50 @@ func geoRefreshCase(r *hlib.Result, m *hlib.Model, rng *rand.Rand, dir string, d
 
 		return
 	}
+	midReplay := map[string]any{"lookups_and_requests_during_refresh_by_point": during, "observed_during_refresh": midObs}
+	// What the clients got and sent while the refresh was running: a location of
+	// the old or of the new databases; upstream exactly one ECS option whose
+	// subnet the old or the new databases assign to such a location.
+	for _, mo := range midObs {
+		a := mo.Act.Addr
+		if mo.Act.Req == nil {
+			if mo.Loc != db1.raceLoc(a) && mo.Loc != db2.raceLoc(a) {
+				r.Violate("geoip-location-from-neither-database", fmt.Sprintf("geoip.File.Data(%s) at point %q of a running Refresh answered %s; the old databases say %s, the new ones %s",
+					a, mo.Point, mo.Loc, db1.raceLoc(a), db2.raceLoc(a)),
+					map[string]any{"databases": db1, "databases_after_refresh": db2, "refresh_at": sc.RefreshAt, "requests": sc.Reqs, "refresh_schedule": midReplay})
+			}
+			r.Count("georefresh.lookup_during_refresh")
+
+			continue
+		}
+		r.Count("georefresh.request_during_refresh")
+		if mo.obs.UpReq == nil {
+			continue
+		}
+		fam, asns, ctrys := dbCandidates(dbs, mo.Act.Req)
+		es := ecsOnly(optRRsOf(mo.obs.UpReq))
+		bad := ""
+		if len(es) != 1 {
+			bad = fmt.Sprintf("%d ECS options", len(es))
+		}
+		for _, e := range es {
+			p, valid := e.asPrefix()
+			if !valid {
+				bad = "not an address"
+
+				continue
+			}
+			ok1, why := db1.assignedOracle(p, fam, asns, ctrys)
+			ok2, _ := db2.assignedOracle(p, fam, asns, ctrys)
+			if !ok1 && !ok2 {
+				bad = e.token() + ": " + why
+			}
+		}
+		if bad != "" {
+			r.Violate("upstream-ecs-not-assigned-during-refresh", fmt.Sprintf("request of %s at point %q of a running Refresh: upstream saw %s", a, mo.Point, bad),
+				map[string]any{"databases": db1, "databases_after_refresh": db2, "refresh_at": sc.RefreshAt, "requests": sc.Reqs, "refresh_schedule": midReplay})
+		}
+	}
 	// Database-level oracle: what reached the upstream is assigned, by the
 	// databases in force at that moment, to the location those databases give
 	// the client or its ECS address.
@@ -326,29 +420,8 @@ func geoRefreshCase(r *hlib.Result, m *hlib.Model, rng *rand.Rand, dir string, d
 			db = db2
 		}
 		rd := &sc.Reqs[i]
-		cls, cp := classify(rd)
-		fam, famAddr := netutil.AddrFamilyIPv4, rd.Remote
-		if cls == ecsValid {
-			famAddr = cp.Addr()
-		}
-		if !famAddr.Is4() {
-			fam = netutil.AddrFamilyIPv6
-		}
-		var asns []geoip.ASN
-		var ctrys []geoip.Country
-		for _, a := range []netip.Addr{rd.Remote, cp.Addr()} {
-			if !a.IsValid() {
-				continue
-			}
-			asn, ctry, _, known := db.lookup(a)
-			if !known {
-				continue
-			}
-			asns, ctrys = append(asns, asn), append(ctrys, ctry)
-			if t, ok := db.Top[ctry]; ok {
-				asns = append(asns, t)
-			}
-		}
+		_, cp := classify(rd)
+		fam, asns, ctrys := dbCandidates([]*geoDB{db}, rd)
 		for _, e := range ecsOnly(optRRsOf(obs[i].UpReq)) {
 			p, valid := e.asPrefix()
 			ok, why := valid, "not an address"
@@ -362,7 +435,8 @@ func geoRefreshCase(r *hlib.Result, m *hlib.Model, rng *rand.Rand, dir string, d
 				}
 				r.Violate(sig, fmt.Sprintf("request %d (client %s, ECS %v; databases refreshed before request %d): upstream saw %s: %s",
 					i, rd.Remote, cp, sc.RefreshAt, e.token(), why),
-					map[string]any{"databases": db1, "databases_after_refresh": db2, "refresh_at": sc.RefreshAt, "requests": sc.Reqs, "observed": observedLines(obs)})
+					map[string]any{"databases": db1, "databases_after_refresh": db2, "refresh_at": sc.RefreshAt, "requests": sc.Reqs, "observed": observedLines(obs),
+						"refresh_schedule": midReplay})
 			}
 			if i >= sc.RefreshAt {
 				r.Count("georefresh.upstream_after_refresh")
@@ -378,4 +452,51 @@ func geoRefreshCase(r *hlib.Result, m *hlib.Model, rng *rand.Rand, dir string, d
 	}
 	runCaseObs(r, m, sc, obs, 10000, 10000, true)
 	r.Count("georefresh.histories")
+}
+
+// midAct is what a client does while Refresh is running: a location look-up
+// (Req nil) or a whole request through the stack.
+type midAct struct {
+	Addr netip.Addr `json:"client"`
+	Req  *reqDesc   `json:"request,omitempty"`
+}
+
+type midObserved struct {
+	Point    string `json:"point"`
+	Act      midAct `json:"action"`
+	Loc      string `json:"location_country_subdivision_asn,omitempty"`
+	Upstream string `json:"upstream_ecs,omitempty"`
+	obs      *obs
+}
+
+// dbCandidates collects, over the given database pairs, the ASNs and countries
+// whose subnets may be sent upstream for rd: those of the client and of its
+// ECS address, and the top ASNs of those countries; fam is the family of the
+// subnet to send.
+func dbCandidates(dbs []*geoDB, rd *reqDesc) (fam netutil.AddrFamily, asns []geoip.ASN, ctrys []geoip.Country) {
+	cls, cp := classify(rd)
+	fam, famAddr := netutil.AddrFamilyIPv4, rd.Remote
+	if cls == ecsValid {
+		famAddr = cp.Addr()
+	}
+	if !famAddr.Is4() {
+		fam = netutil.AddrFamilyIPv6
+	}
+	for _, db := range dbs {
+		for _, a := range []netip.Addr{rd.Remote, cp.Addr()} {
+			if !a.IsValid() {
+				continue
+			}
+			asn, ctry, _, known := db.lookup(a)
+			if !known {
+				continue
+			}
+			asns, ctrys = append(asns, asn), append(ctrys, ctry)
+			if t, ok := db.Top[ctry]; ok {
+				asns = append(asns, t)
+			}
+		}
+	}
+
+	return fam, asns, ctrys
 }
